@@ -861,7 +861,7 @@ func (e *Exec) load(pv Value, st string) Value {
 
 func (e *Exec) noteWrite(o *Object, st string) {
 	if e.frozen > 0 && o.id <= e.frozen {
-		e.obligation(tFalse, "assert", "write to shared memory ("+o.site+")", st)
+		e.obligation(tFalse, "assert", "write to shared memory", o.site+" <- "+st)
 	}
 	if o.id <= e.initDone {
 		if e.dirty == nil {
@@ -1187,7 +1187,7 @@ func (e *Exec) mapGet(m *MapV, k Value) (Value, bool) {
 
 func (e *Exec) noteMapWrite(m *MapV, st string) {
 	if m.id <= e.frozenMap {
-		e.obligation(tFalse, "assert", "write to shared map", st)
+		e.obligation(tFalse, "assert", "write to shared memory", "map <- "+st)
 	}
 	if m.id <= e.initMap {
 		if e.dirtyMaps == nil {
